@@ -320,6 +320,52 @@ func manyWorkers(name string, nw int) {
 	}))
 }
 
+// backpressure: every one of nw workers is busy; exactly ONE more task may wait, whatever the size of the pool.
+func backpressure(name string, nw int) {
+	report(name, within(90*time.Second, fmt.Sprintf("NumberWorker=%d: did not finish within 90 s", nw), func() string {
+		p := wp.NewPool(context.Background(), wp.Option{NumberWorker: nw})
+		gate := make(chan struct{})
+		var running int32
+		for i := 0; i < nw; i++ {
+			p.Execute(func(context.Context) (interface{}, error) { atomic.AddInt32(&running, 1); <-gate; return 0, nil })
+		}
+		for t0 := time.Now(); atomic.LoadInt32(&running) < int32(nw); {
+			if time.Since(t0) > 60*time.Second {
+				close(gate)
+				return fmt.Sprintf("NumberWorker=%d: only %d tasks were running after 60 s", nw, atomic.LoadInt32(&running))
+			}
+			time.Sleep(time.Millisecond)
+		}
+		msg := ""
+		if _, ok := p.TryExecute(val(1)); !ok {
+			msg = fmt.Sprintf("NumberWorker=%d, all workers busy, queue empty: TryExecute was refused (one task may wait)", nw)
+		} else if _, ok := p.TryExecute(val(2)); ok {
+			msg = fmt.Sprintf("NumberWorker=%d, all workers busy and one task waiting: a second TryExecute was accepted - backpressure allows ONE accepted task to wait", nw)
+		} else {
+			ctx, cancel := context.WithCancel(context.Background())
+			t := wp.NewTask(ctx, val(3))
+			ret := make(chan struct{})
+			go func() { p.Do(t); close(ret) }()
+			select {
+			case <-ret:
+				msg = fmt.Sprintf("NumberWorker=%d, all workers busy and one task waiting: Do returned although nobody can take the task - backpressure lost", nw)
+			case <-time.After(200 * time.Millisecond):
+			}
+			cancel()
+			if msg == "" {
+				select {
+				case <-ret:
+				case <-time.After(20 * time.Second):
+					msg = "a blocked Do was not released by cancelling its context (backpressure scenario)"
+				}
+			}
+		}
+		close(gate)
+		p.Stop()
+		return msg
+	}))
+}
+
 // expandedVeteran: n tasks through ONE expanded worker (the fixed worker is parked), then a burst: never more than
 // NumberWorker+ExpandableLimit tasks at once.
 func expandedVeteran(name string, n int) {
@@ -480,6 +526,8 @@ func main() {
 				func() { manyWorkers("pool/16387-workers", 16387) },
 				func() { manyWorkers("pool/40000-workers", 40000) },
 				func() { expandedVeteran("pool/expanded-worker-70000-tasks", 70000) },
+				func() { backpressure("pool/backpressure-8-workers", 8) },
+				func() { backpressure("pool/backpressure-70000-workers", 70000) },
 			} {
 				wg.Add(1)
 				go func(f func()) { defer wg.Done(); f() }(f)
